@@ -997,7 +997,9 @@ impl Formatter {
     fn format_literal(&mut self, lit: &Literal) {
         match lit {
             Literal::Int(n) => self.writer.write(&n.to_string()),
-            Literal::Float(f) => self.writer.write(&f.to_string()),
+            // `Display` drops the fraction of integral values ("1.0" -> "1"), which would turn the
+            // literal into an int; `Debug` always keeps a ".0" or an exponent.
+            Literal::Float(f) => self.writer.write(&format!("{:?}", f)),
             Literal::String(s) => {
                 self.writer.write("\"");
                 self.writer.write(&escape_string(s));
